@@ -136,12 +136,19 @@ func (s *strConvAccErr) ParseSegStatusCodes(key, val string) []SegStatusCodes {
 	for i, part := range parts {
 		// split on , and :
 		pairs := strings.Split(part, ",")
+		lastKey := ""
 		for _, p := range pairs {
 			kv := strings.Split(p, ":")
+			if len(kv) == 1 && lastKey == "rep" && kv[0] != "" {
+				// rep is a comma-separated list of representation IDs: rep:V300,A48
+				codes[i].Reps = append(codes[i].Reps, kv[0])
+				continue
+			}
 			if len(kv) != 2 {
 				s.err = fmt.Errorf("val=%q for key %q is not a valid. Bad pair", val, key)
 				return nil
 			}
+			lastKey = kv[0]
 			switch kv[0] {
 			case "cycle":
 				codes[i].Cycle = s.Atoi("cycle", kv[1])
